@@ -1,6 +1,6 @@
 //! C12 — partial dates, times and date-times: text round trip, byte length,
 //! earliest/latest bounds, range texts (core/src/value/{partial,deserialize,range,primitive}.rs)
-use chrono::{DateTime, Datelike, Duration, FixedOffset, NaiveDate, NaiveDateTime, NaiveTime, TimeZone, Timelike};
+use chrono::{DateTime, Datelike, Duration, FixedOffset, NaiveDate, NaiveDateTime, NaiveTime, Timelike};
 use dicom_core::value::deserialize::{
     parse_date, parse_date_partial, parse_datetime_partial, parse_time, parse_time_partial, Error as DeErr,
 };
@@ -519,6 +519,94 @@ fn case_time_range(b: &[u8], ab: Option<(DicomTime, DicomTime)>) -> Case {
     };
     Case { coq, desc: json!({"bucket": if ab.is_some() { "range/time/A-B" } else { "range/time/other" }, "text": show(b)}), key: format!("RT{}", hex(b)), oracle }
 }
+// ---------------------------------------------------------------- date-time range oracle (own arithmetic)
+/// days since 1970-01-01 of a proleptic Gregorian date (no chrono involved)
+fn days_from_civil(y: i64, m: i64, d: i64) -> i64 {
+    let y = if m <= 2 { y - 1 } else { y };
+    let era = (if y >= 0 { y } else { y - 399 }) / 400;
+    let yoe = y - era * 400;
+    let doy = (153 * (m + if m > 2 { -3 } else { 9 }) + 2) / 5 + d - 1;
+    let doe = yoe * 365 + yoe / 4 - yoe / 100 + doy;
+    era * 146_097 + doe - 719_468
+}
+/// local microseconds (since 1970-01-01T00:00 local) of the earliest and the latest instant a value denotes,
+/// from its components alone; None when it denotes none (not a calendar date, second 60)
+fn own_bounds(v: &DicomDateTime) -> Option<(i128, i128)> {
+    let d = v.date();
+    let y = *d.year() as u32;
+    let (m_lo, m_hi) = d.month().map_or((1, 12), |m| (*m as u32, *m as u32));
+    let (d_lo, d_hi) = d.day().map_or((1, dim(y, m_hi)), |x| (*x as u32, *x as u32));
+    if d_hi > dim(y, m_hi) || d_lo < 1 { return None; }
+    let (t_lo, t_hi): (i128, i128) = match v.time() {
+        None => (0, DAY_US - 1),
+        Some(t) => {
+            let h = *t.hour() as i128;
+            let (mi_lo, mi_hi) = t.minute().map_or((0, 59), |x| (*x as i128, *x as i128));
+            let (s_lo, s_hi) = t.second().map_or((0, 59), |x| (*x as i128, *x as i128));
+            if s_hi > 59 { return None; }
+            let (f_lo, f_hi) = frac_of(t).map_or((0, 999_999), |(f, fp)| { let k = 10i128.pow(6 - fp as u32); (f as i128 * k, f as i128 * k + k - 1) });
+            (((h * 60 + mi_lo) * 60 + s_lo) * 1_000_000 + f_lo, ((h * 60 + mi_hi) * 60 + s_hi) * 1_000_000 + f_hi)
+        }
+    };
+    Some((days_from_civil(y as i64, m_lo as i64, d_lo as i64) as i128 * DAY_US + t_lo,
+          days_from_civil(y as i64, m_hi as i64, d_hi as i64) as i128 * DAY_US + t_hi))
+}
+/// (is the bound zoned, microseconds since the Unix epoch: UTC when zoned, local when naive)
+fn actual_bound(p: &PreciseDateTime) -> (bool, i128) {
+    match p {
+        PreciseDateTime::Naive(n) => (false, n.and_utc().timestamp_micros() as i128),
+        PreciseDateTime::TimeZone(z) => (true, z.timestamp_micros() as i128),
+    }
+}
+/// The property text evaluated directly: `A-B` is the interval from the earliest instant of A to the latest
+/// of B; a bound without offset is read as LOCAL time in the zone the strategy names (mode 0: the system
+/// zone, 1: the zone of the other bound, 2: refuse, 3: drop the known offset and compare local times).
+fn dt_range_oracle(mode: u32, text: &[u8], a: &DicomDateTime, b: &DicomDateTime, res: &Result<DateTimeRange, RErr>) -> Oracle {
+    let mode_name = ["ToLocalTimeZone", "ToKnownTimeZone", "FailOnAmbiguousRange", "IgnoreTimeZone"][mode.min(3) as usize];
+    let (za, zb) = (a.time_zone().map(|z| z.local_minus_utc() as i128), b.time_zone().map(|z| z.local_minus_utc() as i128));
+    if a.time_zone().map_or(false, |z| !zone_is_dicom(z)) || b.time_zone().map_or(false, |z| !zone_is_dicom(z)) { return Oracle::NotApplicable; }
+    let west = |z: Option<i128>| z.map_or(false, |s| s < 0);
+    let known = west(za) && !west(zb) && tz_like(*b.date().year());
+    let class = if known { "AmbiguousWestOffsetRange" } else { "datetime-range-instants" };
+    let bad = |why: String| fails(class, format!("{} strategy {}: {}; got {:?}", show(text), mode_name, why, res.as_ref().map_err(|e| e.to_string())));
+    let (lo, hi) = match (own_bounds(a), own_bounds(b)) {
+        (Some(x), Some(y)) => (x.0, y.1),
+        // a bound that denotes no instant: the text cannot be an interval
+        _ => return if res.is_err() || known || (west(zb) && !west(za)) { Oracle::Holds } else { bad("a bound denotes no instant, the text must be refused".into()) },
+    };
+    // expected: Err(refused) | zoned interval in UTC | naive interval in local time
+    enum Want { Refuse, Zoned(i128, i128), Naive(i128, i128) }
+    let us = 1_000_000i128;
+    let want = match (za, zb) {
+        (Some(x), Some(y)) => Want::Zoned(lo - x * us, hi - y * us),
+        (None, None) => Want::Naive(lo, hi),
+        (x, y) => match mode {
+            0 => { let l = local_offset() as i128; Want::Zoned(lo - x.unwrap_or(l) * us, hi - y.unwrap_or(l) * us) }
+            1 => { let k = x.or(y).unwrap(); Want::Zoned(lo - k * us, hi - k * us) }
+            2 => Want::Refuse,
+            _ => Want::Naive(lo, hi),
+        },
+    };
+    let (accept, want_zoned, ws, we) = match want { Want::Refuse => (false, false, 0, 0), Want::Zoned(s, e) => (s <= e, true, s, e), Want::Naive(s, e) => (s <= e, false, s, e) };
+    if !accept {
+        // when the only west offset is B's, a refused first split is retried at B's offset dash: the property is silent
+        if west(zb) && !west(za) { return Oracle::NotApplicable; }
+        let good = match (res, &want) { (Err(RErr::AmbiguousDtRange { .. }), Want::Refuse) => true, (Err(RErr::RangeInversion { .. }), Want::Zoned(..) | Want::Naive(..)) => true, _ => false };
+        return if good { Oracle::Holds } else { bad(format!("must be refused ({})", if matches!(want, Want::Refuse) { "ambiguous" } else { "inverted" })) };
+    }
+    match res {
+        Ok(rg) => match (rg.start(), rg.end()) {
+            (Some(s), Some(e)) => {
+                let ((sz, sv), (ez, ev)) = (actual_bound(&s), actual_bound(&e));
+                if sz == want_zoned && ez == want_zoned && sv == ws && ev == we { Oracle::Holds }
+                else { bad(format!("want {} [{} us, {} us] since the Unix epoch, got [{} us, {} us] (zoned: {}, {})", if want_zoned { "UTC" } else { "local" }, ws, we, sv, ev, sz, ez)) }
+            }
+            _ => bad("a bound is missing".into()),
+        },
+        Err(_) => bad(format!("the interval [{} us, {} us] is in order and must be accepted", ws, we)),
+    }
+}
+
 fn local_offset() -> i32 { chrono::Local::now().offset().local_minus_utc() }
 /// the digits of `y` read as hhmm form a valid west offset
 fn tz_like(y: u16) -> bool { (y / 100) as u32 * 60 + (y % 100) as u32 <= 720 }
@@ -533,38 +621,7 @@ fn case_dt_range(mode: u32, b: &[u8], ab: Option<(DicomDateTime, DicomDateTime)>
     let coq = format!("(CDTRange {} {} {})", cmode, c_bytes(b), c_caught(&caught, c_dt_range, r_class));
     if caught.is_none() { return Case { coq, desc: json!({"bucket": "range/datetime/panic", "mode": mode, "text": show(b), "hex": hex(b)}), key: format!("RDT{}/{}", mode, hex(b)), oracle: panic_oracle(&caught, "parse_datetime_range", b, Oracle::Holds) }; }
     let res = caught.unwrap();
-    // oracle: both ends zoned or both naive (no ambiguity rule involved), DICOM zones, proper interval.
-    // Known class AmbiguousWestOffsetRange (= ambiguous_west_range in Properties/C12.v): A has the
-    // only west offset of the text and B's year reads as a west offset of at most 12:00.
-    let oracle = match ab {
-        Some((a, bb)) if a.time_zone().is_some() == bb.time_zone().is_some()
-            && a.time_zone().map_or(true, zone_is_dicom) && bb.time_zone().map_or(true, zone_is_dicom) => {
-            let west = |v: &DicomDateTime| v.time_zone().map_or(false, |z| z.local_minus_utc() < 0);
-            let known = west(&a) && !west(&bb) && tz_like(*bb.date().year());
-            match (a.earliest(), bb.latest()) {
-                (Ok(lo), Ok(hi)) if lo <= hi => {
-                    let good = matches!(&res, Ok(rg) if rg.start() == Some(lo) && rg.end() == Some(hi));
-                    if good { Oracle::Holds }
-                    else { fails(if known { "AmbiguousWestOffsetRange" } else { "datetime-range-text" }, format!("{} -> {:?}, want [{:?}, {:?}]", show(b), res.as_ref().ok(), lo, hi)) }
-                }
-                _ => Oracle::NotApplicable,
-            }
-        }
-        // zone on one side only: the known class still applies (the split is wrong whatever the rule)
-        Some((a, bb)) if a.time_zone().map_or(false, |z| zone_is_dicom(z) && z.local_minus_utc() < 0) && bb.time_zone().is_none() && tz_like(*bb.date().year()) && mode == 1 => {
-            match (a.earliest(), bb.latest()) {
-                (Ok(PreciseDateTime::TimeZone(lo)), Ok(PreciseDateTime::Naive(hi))) => {
-                    let hi = lo.offset().from_local_datetime(&hi).unwrap();
-                    if lo <= hi {
-                        let good = matches!(&res, Ok(rg) if rg.start() == Some(PreciseDateTime::TimeZone(lo)) && rg.end() == Some(PreciseDateTime::TimeZone(hi)));
-                        if good { Oracle::Holds } else { fails("AmbiguousWestOffsetRange", format!("{} -> {:?}, want [{:?}, {:?}]", show(b), res.as_ref().ok(), lo, hi)) }
-                    } else { Oracle::NotApplicable }
-                }
-                _ => Oracle::NotApplicable,
-            }
-        }
-        _ => Oracle::NotApplicable,
-    };
+    let oracle = match &ab { Some((a, bb)) => dt_range_oracle(mode, b, a, bb, &res), None => Oracle::NotApplicable };
     Case { coq, desc: json!({"bucket": format!("range/datetime/{}{}", if ab.is_some() { "A-B" } else { "other" }, b.iter().filter(|c| **c == b'-').count()), "mode": mode, "text": show(b)}), key: format!("RDT{}/{}", mode, hex(b)), oracle }
 }
 
@@ -699,6 +756,16 @@ pub fn cases(ctx: &Ctx) -> Vec<Case> {
         (Ok(a), Ok(b)) => case_dt_range(1, b"1000-1100-1150", Some((a, b))),
         _ => refused("valid DT texts 1000-1100 / 1150".into()),
     });
+    // one bound with an offset, the other without, under every strategy (the other bound is LOCAL time in the named zone)
+    for (ta, tb) in [("19900101", "19950101+0200"), ("199203-0500", "1993"), ("20240101000000", "20240101010000+0200"), ("20240101000000+0200", "20240101010000"),
+                     ("2024010100-1000", "2023123120"), ("20231231", "20240101-1200"), ("20240101+1400", "20231231")] {
+        for mode in 0..4 {
+            out.push(match (ta.parse::<DicomDateTime>(), tb.parse::<DicomDateTime>()) {
+                (Ok(a), Ok(b)) => case_dt_range(mode, format!("{}-{}", ta, tb).as_bytes(), Some((a, b))),
+                _ => refused(format!("valid DT texts {} / {}", ta, tb)),
+            });
+        }
+    }
     // ---- complete sweeps over the finite domains named by the property (implementation only)
     out.push(sweep_times());
     out.push(sweep_dates());
